@@ -97,12 +97,6 @@ func genC17(c *mon.Ctx) []hcase {
 		if h.claimed >= 0 || h.lclass == "" {
 			h.lclass = lenClass(h.claimed)
 		}
-		if b := firstBody(h.proto, h.mode, h.stream); b > h.body || h.body == 0 {
-			h.body = b
-		}
-		if h.claimed > h.body {
-			h.body = h.claimed
-		}
 		cases = append(cases, h)
 	}
 	ivals := interesting32()
@@ -373,10 +367,10 @@ func runC17(c *mon.Ctx) {
 
 	cases := genC17(c)
 	c.Set("inputs", int64(len(cases)))
-	const batchSize = 2500
+	const batchSize = 500
 	const deathsBeforeRecover = 24
-	const oomBeforeSkip = 40
-	deaths, oomDeaths := 0, 0 // oomDeaths also counts calls that allocated >= 256 MiB and survived
+	const hugeBeforeAbort = 40
+	deaths, hugeEvents := 0, 0 // hugeEvents: out-of-memory deaths on over-bound blocks + calls that allocated >= 256 MiB and survived
 	perFamily := map[string]int64{}
 	maxAlloc := map[string]uint64{}
 	controlsOK := int64(0)
@@ -384,6 +378,13 @@ func runC17(c *mon.Ctx) {
 		end := off + batchSize
 		if end > len(cases) {
 			end = len(cases)
+		}
+		if hugeEvents >= hugeBeforeAbort {
+			// Dozens of inputs already killed the child by allocating GiB blocks (or
+			// survived a >= 256 MiB allocation, seconds each): the verdict is settled, the
+			// remaining inputs are not run.
+			c.Set("inputs_not_run_after_repeated_huge_allocations", int64(len(cases)-off))
+			break
 		}
 		batch := cases[off:end]
 		inputs := make([][]byte, len(batch))
@@ -394,25 +395,8 @@ func runC17(c *mon.Ctx) {
 		// of several GiB dies at once as "fatal error: out of memory"; the largest
 		// legitimate frame needs 16 MiB. An out-of-memory death counts as a violation
 		// only if the block that could not be allocated is itself above the bound.
+		// Batches are small so that the abort rule above is evaluated often.
 		opts := mon.BatchOpts{MemLimitMB: 768, Timeout: 10 * time.Minute, MaxProcs: 1}
-		if oomDeaths >= oomBeforeSkip {
-			// dozens of inputs already killed the child by allocating GiB blocks (or survived
-			// a >= 256 MiB allocation): the remaining inputs whose prefix claims >= 64 MiB
-			// would only repeat that, at seconds each
-			kept := batch[:0:0]
-			for _, h := range batch {
-				if h.body >= 1<<26 {
-					c.Add("inputs_skipped_after_repeated_oom", 1)
-					continue
-				}
-				kept = append(kept, h)
-			}
-			batch = kept
-			inputs = inputs[:0]
-			for i := range batch {
-				inputs = append(inputs, batch[i].encode())
-			}
-		}
 		if deaths >= deathsBeforeRecover {
 			// enough genuine process deaths observed in this run: report further panics in-band
 			opts.Env = []string{"VERIF_RECOVER=1"}
@@ -466,7 +450,7 @@ func runC17(c *mon.Ctx) {
 					c.Inconclusive(fmt.Sprintf("child out of memory on a %d-byte block (within the bound) at %s", block, h.String()))
 					continue
 				}
-				oomDeaths++
+				hugeEvents++
 				wit["block_bytes"] = block
 				c.Violate("fatal:oom|"+label, wit)
 				c.Distinct(fmt.Sprintf("%s/%s/%s/%s/oom", label, modeName[h.mode], fam, h.lclass))
@@ -507,7 +491,7 @@ func runC17(c *mon.Ctx) {
 				maxAlloc[key] = res.MaxAlloc
 			}
 			if res.MaxAlloc >= 256<<20 {
-				oomDeaths++
+				hugeEvents++
 			}
 			if res.MaxAlloc > allocBound {
 				wit["max_alloc_bytes"] = res.MaxAlloc
